@@ -13,7 +13,17 @@ use crate::rng::mix;
 use crate::spec::{self, ModelReply, OutRec, PreOutcome, ReqInfo, StreamModel};
 use crate::wire;
 
+#[derive(Clone, Copy, Debug, PartialEq, Eq)]
+pub enum ReqKind {
+    Normal,
+    /// AbortRequest for the request's id arrived during the Params stream
+    AbortedInParams,
+    /// AbortRequest arrived after the preamble (offset of the abort record)
+    AbortedLater(usize),
+}
+
 pub struct ReqModel {
+    pub kind: ReqKind,
     pub info: ReqInfo,
     pub streams: StreamModel,
     /// replies owed for records of this request's span (preamble + stream phase), arrival order
@@ -27,14 +37,37 @@ pub fn conn_model(case: &ConnCase) -> Result<Vec<ReqModel>, String> {
     for r in &case.reqs {
         let upto = &case.wire[..r.end];
         let pre = spec::model_preamble(upto, off);
-        let PreOutcome::Done(info) = pre.outcome else {
-            return Err(format!("model: preamble of the request at {} not complete: {:?}", r.start, pre.outcome));
+        let info = match pre.outcome {
+            PreOutcome::Done(info) => info,
+            PreOutcome::Incomplete if pre.aborted.contains(&r.preamble.id) => {
+                // aborted during Params: answered by the parser, never handed to a handler
+                let info = ReqInfo { id: r.preamble.id, role: r.preamble.role, flags: r.preamble.flags, env: Default::default(), begin_off: r.start, end_off: r.end };
+                let streams = StreamModel { streams: Vec::new(), replies: Vec::new(), abort_off: None, scanned_to: r.end };
+                off = r.end;
+                v.push(ReqModel { kind: ReqKind::AbortedInParams, info, streams, replies: pre.replies });
+                continue;
+            }
+            other => return Err(format!("model: preamble of the request at {} not complete: {other:?}", r.start)),
         };
+        if !pre.aborted.is_empty() {
+            return Err("model: unexpected abort before a completed preamble inside one request span".into());
+        }
         let streams = spec::model_streams(upto, info.end_off, info.id, info.role);
         let mut replies = pre.replies;
         replies.extend(streams.replies.iter().cloned());
+        let mut kind = ReqKind::Normal;
+        if let Some(a) = streams.abort_off {
+            kind = ReqKind::AbortedLater(a);
+            // records behind the abort are never seen by the stream parser; the next request
+            // parser treats them as stray records (management queries are still answered)
+            let (recs, _) = wire::scan(&upto[a..]);
+            if let Some(first) = recs.first() {
+                let stale = spec::model_preamble(upto, a + first.end);
+                replies.extend(stale.replies);
+            }
+        }
         off = r.end;
-        v.push(ReqModel { info, streams, replies });
+        v.push(ReqModel { kind, info, streams, replies });
     }
     Ok(v)
 }
@@ -97,13 +130,22 @@ pub fn check_conn(case: &ConnCase, model: &[ReqModel], out: &[u8], invs: &[Invoc
         return Err(("output-partial-record".into(), format!("the output ends with {} bytes of an incomplete record", out.len() - tail)));
     }
     // ---- handler invocations ------------------------------------------------------------------
-    if invs.len() != expect_served {
+    // requests aborted during Params are answered by the parser and never reach a handler
+    let handled: Vec<usize> = (0..expect_served.min(model.len())).filter(|&i| model[i].kind != ReqKind::AbortedInParams).collect();
+    if invs.len() != handled.len() {
         return Err((
-            if invs.len() > expect_served { "extra-handler-invocation" } else { "missing-handler-invocation" }.into(),
-            format!("{} handler invocation(s), expected {expect_served} (keep-conn flags {:?})", invs.len(), case.reqs.iter().map(|r| r.preamble.flags & 1).collect::<Vec<_>>()),
+            if invs.len() > handled.len() { "extra-handler-invocation" } else { "missing-handler-invocation" }.into(),
+            format!(
+                "{} handler invocation(s), expected {} (keep-conn flags {:?}, request kinds {:?})",
+                invs.len(),
+                handled.len(),
+                case.reqs.iter().map(|r| r.preamble.flags & 1).collect::<Vec<_>>(),
+                model.iter().map(|m| m.kind).collect::<Vec<_>>()
+            ),
         ));
     }
-    for (i, inv) in invs.iter().enumerate() {
+    for (k, inv) in invs.iter().enumerate() {
+        let i = handled[k];
         let m = &model[i];
         let v = inv.view.as_ref().expect("view");
         if v.role != m.info.role || v.flags != m.info.flags {
@@ -121,17 +163,26 @@ pub fn check_conn(case: &ConnCase, model: &[ReqModel], out: &[u8], invs: &[Invoc
                 let bad = got.iter().zip(&si.content).take_while(|(a, b)| a == b).count();
                 return Err(("handler-read-wrong-bytes".into(), format!("request {i} stream {}: bytes read are not a prefix of the stream (first difference at {bad}, read {}, stream has {})", si.rtype, got.len(), si.content.len())));
             }
+            if inv.eofs.contains(&si.rtype) && si.term_off.is_none() {
+                return Err(("eof-instead-of-abort".into(), format!("request {i} stream {}: the handler saw end-of-file although the stream was aborted before its end", si.rtype)));
+            }
             if inv.eofs.contains(&si.rtype) && got.len() != si.content.len() {
                 return Err(("handler-premature-eof".into(), format!("request {i} stream {}: end-of-file after {} of {} bytes", si.rtype, got.len(), si.content.len())));
             }
             let script = &case.scripts[i.min(case.scripts.len() - 1)];
-            if script.ops.contains(&Op::ReadToEnd) && inv.errors.is_empty() && script_reads_stream_fully(script, si.rtype, &m.info) && got != si.content {
+            if m.kind == ReqKind::Normal && script.ops.contains(&Op::ReadToEnd) && inv.errors.is_empty() && script_reads_stream_fully(script, si.rtype, &m.info) && got != si.content {
                 return Err(("handler-short-read".into(), format!("request {i} stream {}: read-to-end returned {} of {} bytes", si.rtype, got.len(), si.content.len())));
             }
         }
         for (s, b) in &inv.reads {
             if !m.streams.streams.iter().any(|si| si.rtype == *s) {
                 return Err(("handler-read-without-stream".into(), format!("request {i}: {} bytes read while the active stream was {s}", b.len())));
+            }
+        }
+        for (what, kind) in &inv.errors {
+            let aborted = matches!(m.kind, ReqKind::AbortedLater(_));
+            if !(aborted && *kind == std::io::ErrorKind::ConnectionAborted) {
+                return Err(("handler-unexpected-error".into(), format!("request {i}: handler operation {what} failed with {kind:?} ({})", if aborted { "only ConnectionAborted is expected after a client abort" } else { "no error is expected" })));
             }
         }
         if !inv.zero_len_reads_ok {
@@ -143,7 +194,11 @@ pub fn check_conn(case: &ConnCase, model: &[ReqModel], out: &[u8], invs: &[Invoc
     let mut ri = 0usize; // record cursor
     let mut mgmt: Vec<(usize, OutRec)> = Vec::new(); // (position in recs, record)
     let mut first_end_record_pos: Vec<usize> = Vec::new();
-    for (i, inv) in invs.iter().enumerate() {
+    // EndRequest records the parser itself owes for requests aborted during Params, in order
+    let mut parser_ends: std::collections::VecDeque<(usize, u16)> =
+        (0..expect_served.min(model.len())).filter(|&i| model[i].kind == ReqKind::AbortedInParams).map(|i| (i, model[i].info.id)).collect();
+    for (k, inv) in invs.iter().enumerate() {
+        let i = handled[k];
         let m = &model[i];
         let id = m.info.id;
         let mut want_out = Vec::new();
@@ -182,6 +237,10 @@ pub fn check_conn(case: &ConnCase, model: &[ReqModel], out: &[u8], invs: &[Invoc
                         got.extend_from_slice(data);
                     }
                 }
+                OutRec::End { id: rid, status, .. } if parser_ends.front().map_or(false, |(j, pid)| *j < i && pid == rid) && *status == wire::ST_COMPLETE => {
+                    parser_ends.pop_front();
+                    mgmt.push((pos, r.clone()));
+                }
                 OutRec::End { id: rid, app, status, .. } if *rid == id && !is_parser_end(*status) => {
                     first_end.get_or_insert(pos);
                     let script = &case.scripts[i.min(case.scripts.len() - 1)];
@@ -205,7 +264,8 @@ pub fn check_conn(case: &ConnCase, model: &[ReqModel], out: &[u8], invs: &[Invoc
                 format!("request {i}: stdout {} bytes (handler wrote {}), stderr {} bytes (handler wrote {})", got_out.len(), want_out.len(), got_err.len(), want_err.len()),
             ));
         }
-        if end_out != 1 || end_err != 1 {
+        let aborted_later = matches!(m.kind, ReqKind::AbortedLater(_));
+        if !((end_out == 1 && end_err == 1) || (aborted_later && end_out == 0 && end_err == 0)) {
             return Err(("stream-end-records".into(), format!("request {i}: {end_out} empty Stdout and {end_err} empty Stderr record(s) before EndRequest, expected one each")));
         }
         first_end_record_pos.push(first_end.unwrap_or(ri));
@@ -215,6 +275,10 @@ pub fn check_conn(case: &ConnCase, model: &[ReqModel], out: &[u8], invs: &[Invoc
     while ri < recs.len() {
         match &recs[ri] {
             OutRec::Stream { .. } => return Err(("output-after-endrequest".into(), "stream record after the last EndRequest".into())),
+            OutRec::End { id, status, .. } if parser_ends.front().map_or(false, |(_, pid)| pid == id) && *status == wire::ST_COMPLETE => {
+                parser_ends.pop_front();
+                mgmt.push((ri, recs[ri].clone()));
+            }
             OutRec::End { id, status, .. } if !is_parser_end(*status) => {
                 return Err(("duplicate-endrequest".into(), format!("a further EndRequest (id {id}, status {status}) after the last handled request")));
             }
@@ -228,7 +292,8 @@ pub fn check_conn(case: &ConnCase, model: &[ReqModel], out: &[u8], invs: &[Invoc
     let conns = case.conns.to_string();
     let matched = prefix_match(&all_replies, &got, &conns).map_err(|m| ("management-replies".to_string(), m))?;
     // ---- replies that were certainly pending at close time precede the end records ------------------
-    for (i, inv) in invs.iter().enumerate() {
+    for (k, inv) in invs.iter().enumerate() {
+        let i = handled[k];
         let m = &model[i];
         let upto = provably_read_past(inv, m);
         // index (in all_replies) of the last non-optional reply whose record ends at or before `upto`
@@ -241,7 +306,7 @@ pub fn check_conn(case: &ConnCase, model: &[ReqModel], out: &[u8], invs: &[Invoc
         }
         if must > 0 {
             // count how many model replies are matched by management records located before the first end record
-            let before = mgmt.iter().filter(|(p, _)| *p < first_end_record_pos[i]).count();
+            let before = mgmt.iter().filter(|(p, _)| *p < first_end_record_pos[k]).count();
             let before_recs: Vec<OutRec> = mgmt.iter().take(before).map(|(_, r)| r.clone()).collect();
             let matched_before = prefix_match(&all_replies, &before_recs, &conns).unwrap_or(0);
             if matched_before < must {
@@ -272,6 +337,8 @@ fn script_reads_stream_fully(script: &Script, _t: u8, info: &ReqInfo) -> bool {
 pub fn expected_exit(script: &Script, inv: &Invocation) -> ExitStatus {
     match inv.returned {
         Some(Ok(s)) => s,
+        // a handler that propagates the connection-aborted error gets the distinguished abort status
+        Some(Err(std::io::ErrorKind::ConnectionAborted)) => ExitStatus::ABORT,
         _ => script.status,
     }
 }
@@ -417,7 +484,7 @@ pub fn run_one(c: &mut Case, opts: &GenOpts) {
 }
 
 pub fn run(ctx: &Ctx, evidence: Option<&PathBuf>) -> i32 {
-    let opts = GenOpts { max_requests: 5, extra_pct: 20, big: ctx.scale == Scale::Full, keep_conn_pct: 75 };
+    let opts = GenOpts { max_requests: 5, extra_pct: 20, big: ctx.scale == Scale::Full, keep_conn_pct: 75, no_begin_extras: false };
     ctx.run_fixed("directed", 300, |c| run_one(c, &opts));
     let n = ctx.size(15_000, 1_500_000);
     ctx.run_cases("connections", n, |c| run_one(c, &opts));
